@@ -726,6 +726,9 @@ impl SubscriptionActor {
 
 //@tags C01 C02 C03 C04 C08
 //@include lemmas/sub_history.rs
+//@tags C08
+//@include lemmas/sub_fifo.rs
+//@tags C01 C02 C03 C04 C08
 
 /// GLUE MIRROR (A-GLUE, not extracted): the expiry branch of the actor loop is
 ///     Some(expired) = actor.outstanding.poll_next_expired() => actor.handle_expired_messages(expired)
